@@ -293,7 +293,7 @@ class History(_Limiter):
             rate = F(num, den)
             menu = self.gap_menu(cap, rate)
             profile = rng.choice(("mixed", "mixed", "burst", "drain-idle", "steady"))
-            long_run = rng.random() < (0.04 if n > 20000 else 0.0)
+            long_run = rng.random() < (0.04 if n >= 5000 else 0.0)  # thorough tier (per-shard n = 7500): up to 5000 events
             ln = rng.randint(200, 5000) if long_run else rng.choice((rng.randint(1, 12), rng.randint(5, 60), rng.randint(40, 200)))
             nips = rng.choice((1, 2, 2, 3, 4))
             t, evs = 0, []
